@@ -131,14 +131,19 @@ let () = each_line (fun line ->
       let plen = int_of_string (get "plen") and total = int_of_string (get "total") in
       let seed = int_of_string (get "seed") and have = get "have" in
       let np = (total + plen - 1) / plen in
+      (* huge sparse layout: only the listed pieces are materialised in the model store (the others are never listed) *)
+      let big = (try List.map int_of_string (List.filter (fun x -> x <> "") (String.split_on_char ',' (List.assoc "big" kvs))) with Not_found -> []) in
+      let is_big = List.mem_assoc "big" kvs in
+      let have = if is_big then String.make np '0' else have in
       let psz i = min plen (total - i * plen) in
       let content i = List.init (psz i) (fun k -> byte_tab.(content_byte seed (i * plen + k))) in
-      let contents = Array.init np content in
+      let contents = Array.init np (fun i -> if is_big && not (List.mem i big) then [] else content i) in
       let expected_tab = Array.map sha1_n contents in
       let none = not (String.contains have '1') in
       let pre = (try int_of_string (List.assoc "pre" kvs) with Not_found -> 0) in
       let st0 = List.init np (fun i ->
-        if have.[i] = '1' then contents.(i)
+        if is_big && not (List.mem i big) then []
+        else if have.[i] = '1' then contents.(i)
         else if none then List.init (psz i) (fun _ -> byte_tab.(if pre > 0 then 0xee else 0))
         else (match contents.(i) with x :: r -> byte_tab.((in_ x) lxor 0x5a) :: r | [] -> [])) in
       let c0 = List.filter_map (fun i -> if have.[i] = '1' then Some (ni i) else None) (List.init np (fun i -> i)) in
